@@ -1741,3 +1741,89 @@ def rule_hook_call(repo, res):
                                         "positional; a substitute class whose parameters are named differently raises TypeError, which "
                                         "is neither LexerError nor ParseError and escapes the loader", where=f"pvl/{mname}.py:{call.lineno}"))
     res.floor("calls of the substitute-class hooks", n, 4)
+
+
+def rule_parse_append(repo, res):
+    """PARSE-APPEND: the parser builds containers with append() only: in the parser classes no statement assigns to an
+    item of a container being built (`agg[name] = block`, `module[key] = value`).  Item assignment on the multi-valued
+    containers replaces the first pair with that name and deletes the later ones, so duplicate names -- several OBJECT =
+    COLUMN blocks in a table -- would collapse into one, moved to the first position."""
+    n = 0
+    for cname in sorted(repo.subclasses("PVLParser")):
+        ci = repo.classes[cname]
+        for meth, fn in ci.methods.items():
+            if not meth.startswith("parse"):
+                continue
+            for a in [x for x in ast.walk(fn) if isinstance(x, (ast.Assign, ast.AugAssign))]:
+                for t in (a.targets if isinstance(a, ast.Assign) else [a.target]):
+                    if isinstance(t, ast.Subscript) and isinstance(t.value, ast.Name) and t.value.id not in ("self",):
+                        n += 1
+                        res.oblige("PARSE-APPEND", f"{cname}.{meth}: `{norm(a, 50)}` is not an item assignment on a container being built", ok=False)
+                        res.add(Finding("PARSE-APPEND", f"{cname}.{meth}", f"`{norm(a, 50)}`",
+                                        f"{cname}.{meth} stores a parsed statement with `{norm(a, 60)}`: item assignment on the ordered "
+                                        "multi-dict replaces the first pair of that name and drops the later ones, so repeated names "
+                                        "(duplicate blocks or parameters) do not survive the load", where=f"pvl/parser.py:{a.lineno}"))
+    res.oblige("PARSE-APPEND", "the parser classes add pairs with append() only", ok=n == 0)
+
+
+def rule_enc_classify(repo, res):
+    """ENC-CLASSIFY: the encoders decide what a text *is* (number, date, keyword, identifier) through their decoder and the
+    Token predicates, never by calling float() / int() / Decimal() / strptime on the text themselves: the reader of the
+    same configuration uses its real_cls (Decimal accepts `sNaN`, float does not), so a private classification by float()
+    writes bare what that reader takes for a number."""
+    n = 0
+    for cname in sorted(repo.subclasses("PVLEncoder")):
+        for meth, fn in repo.classes[cname].methods.items():
+            if not (meth.startswith("is_") or meth in ("needs_quotes", "encode_string")):
+                continue
+            for call in [x for x in ast.walk(fn) if isinstance(x, ast.Call) and norm(x.func) in ("float", "int", "Decimal", "decimal.Decimal", "complex",
+                                                                                                 "datetime.datetime.strptime", "datetime.strptime")]:
+                if call.args and isinstance(call.args[0], ast.Name):
+                    n += 1
+                    res.oblige("ENC-CLASSIFY", f"{cname}.{meth}: `{norm(call, 40)}` does not classify the text itself", ok=False)
+                    res.add(Finding("ENC-CLASSIFY", f"{cname}.{meth}", f"`{norm(call, 40)}`",
+                                    f"{cname}.{meth} probes the text with `{norm(call, 50)}` instead of asking its decoder / Token: with a "
+                                    "decoder whose real_cls is not float the writer and the reader classify some texts differently, and a "
+                                    "string is written bare that reads back as a number", where=f"pvl/encoder.py:{call.lineno}"))
+    res.oblige("ENC-CLASSIFY", "the quoting decisions of the encoders go through the decoder / Token predicates", ok=n == 0)
+
+
+def rule_parse_raise(repo, res):
+    """PARSE-RAISE: inside the productions, ParseError means "the text ended too early" and nothing else: every
+    `raise ParseError(...)` of the parser classes (outside the entry point parse()) stands in an exception handler (of
+    StopIteration, or of the ValueError that comes back from throwing into an exhausted token generator) or directly
+    after a loop over the tokens that ran to its end.  Anything wrong with a token that *is* there is reported by throwing
+    ValueError into the lexer, which turns it into a LexerError with pos / lineno / colno -- a ParseError raised for a
+    token at hand (an unterminated units expression cut short by a disallowed character) hides the character-set
+    error and carries no position."""
+    n = 0
+    for cname in sorted(repo.subclasses("PVLParser")):
+        for meth, fn in repo.classes[cname].methods.items():
+            if meth in ("parse", "__init__"):
+                continue
+            for r in [x for x in ast.walk(fn) if isinstance(x, ast.Raise) and x.exc is not None and "ParseError" in norm(x.exc)]:
+                n += 1
+                ok = False
+                x = r
+                while x is not None and x is not fn:
+                    p = getattr(x, "_parent", None)
+                    if isinstance(p, ast.ExceptHandler):
+                        ok = True
+                    for field in ("body", "orelse", "finalbody"):
+                        blk = getattr(p, field, None)
+                        if isinstance(blk, list) and x in blk:
+                            prev = blk[:blk.index(x)]
+                            if any(isinstance(s_, (ast.For, ast.While)) and "tokens" in norm(s_.iter if isinstance(s_, ast.For) else s_.test) for s_ in prev):
+                                ok = True
+                    # the orelse of a for-loop over tokens: ran to its end
+                    if isinstance(p, ast.For) and x in p.orelse and "tokens" in norm(p.iter):
+                        ok = True
+                    x = p
+                res.oblige("PARSE-RAISE", f"{cname}.{meth}: `{norm(r, 50)}` stands where the token stream is exhausted", ok=ok)
+                if not ok:
+                    res.add(Finding("PARSE-RAISE", f"{cname}.{meth}", f"`{norm(r, 50)}` for a token at hand",
+                                    f"{cname}.{meth} raises ParseError directly (`{norm(r, 70)}`) although a token was read: the productions "
+                                    "report a bad token by throwing ValueError into the lexer (LexerError with pos, lineno, colno); a "
+                                    "character outside the dialect's set that cut the token short is then reported as a ParseError without "
+                                    "position instead of the LexerError the dialect owes", where=f"pvl/parser.py:{r.lineno}"))
+    res.floor("ParseError raises in the productions", n, 3)
